@@ -11,7 +11,7 @@
 (*   dec_err yabgp.parse(ref) reported an error                            *)
 (* TLC evaluates the structural walker and the normal form on `impl`.      *)
 (***************************************************************************)
-EXTENDS WireUpdate, TLCExt, Json, IOUtils
+EXTENDS WireUpdate, WireOpen, TLCExt, Json, IOUtils
 
 CONSTANTS PROPS
 Tr == ndJsonDeserialize(IOEnv.TRACE_FILE)
@@ -28,7 +28,19 @@ CheckLine(r) ==
    /\ Ck("C08", r, "C08.silent", r.kind = "upd" => ~r.none, <<>>)
    /\ Ck("C09", r, "C09.decode", r.kind \in {"upd", "updvar"} => r.dec_ok, r.ddiff)
    /\ Ck("C09", r, "C09.error", r.kind = "cor" => r.dec_err, <<>>)
+SessKinds == {"openrt", "notif", "rr", "ka"}
+WfSess(r) ==
+   CASE r.kind = "openrt" -> WfOpen(r.impl) [] r.kind = "notif" -> WfNotification(r.impl)
+     [] r.kind = "rr" -> WfRouteRefresh(r.impl) [] r.kind = "ka" -> WfKeepalive(r.impl) [] OTHER -> TRUE
+CheckSess(r) ==
+   /\ Ck("C14", r, "C14.constructs", r.kind \in SessKinds => (~r.raised /\ ~r.none), r.diff)
+   /\ Ck("C14", r, "C14.roundtrip", (r.kind \in SessKinds /\ HasImpl(r)) => r.rt_ok, r.diff)
+   /\ Ck("C14", r, "C14.meaning", (r.kind \in SessKinds /\ HasImpl(r) /\ WfSess(r)) =>
+                                     IF r.kind = "openrt" THEN NormOpen(r.impl) = NormOpen(r.ref) ELSE r.impl = r.ref, <<>>)
+   /\ Ck("C14", r, "C14.decode", r.kind \in SessKinds \cup {"open"} => r.dec_ok, r.ddiff)
+   /\ Ck("C08", r, "C08.wellformed", (r.kind \in SessKinds /\ HasImpl(r)) => WfSess(r), <<>>)
+   /\ Ck("C08", r, "C08.silent", r.kind \in SessKinds => ~r.none, <<>>)
 Init == l = 1
-Next == l <= Len(Tr) /\ CheckLine(Tr[l]) /\ l' = l + 1
+Next == l <= Len(Tr) /\ CheckLine(Tr[l]) /\ CheckSess(Tr[l]) /\ l' = l + 1
 AllConsumed == TLCGet("stats").diameter - 1 = Len(Tr)
 =============================================================================
